@@ -3,6 +3,7 @@ CONSTANTS
   CheckTrailer = TRUE
   UpdateWatchdog = FALSE
   WaitOrigins = FALSE
+  CallerCtx = TRUE
   Bound = 1
   NOrigs = {0}
   Intfs = {"keep"}
